@@ -240,6 +240,32 @@ CLAIMED = {
        "iteration order up to permutation; non-enclosed zip names are outside the model (skipped since 5f37686).",
   technique="Lean 4 proofs over an abstract-layout producer model + differential correspondence on real dir/zip/plain layouts",
   design="6.C17"),
+ "C15": dict(
+  text=("Proof: 12 theorems (all full strength, for every CFG, well-formed or not) about Gcno.compute (model of "
+        "read_gcda/count_on_tree/add_line_count/finalize): result structure is a function of the notes; no gcda => all "
+        "zero; any permutation of an accepted gcda list gives the same result; k+1 copies give exactly (k+1)x line counts "
+        "with the same flags and branches, through propagation and the cycle search; executed <=> first arc count > 0; "
+        "version/checksum/function-checksum mismatches are never accepted. Tie: Gcno::compute and the {:?} state vs the "
+        "model at record and byte level on generated notes and data, the /repo/test corpus and corrupted files; the laws "
+        "are also evaluated on the implementation itself."),
+  note=COMMON_NOTE + "Harness gcno/gcda encoder and independent decoder are trusted; HashMap order modelled as "
+       "first-insertion order; u64 overflow is a panic (overflow checks on); u32 runcounts not modelled; stack depth of "
+       "the recursive Rust is outside the model.",
+  technique="Lean 4 proofs (additive-increment algebra, simulation under a scaling relation) over a record-level model of the gcno/gcda reader + differential correspondence at record and byte level",
+  design="6.C15"),
+ "C08": dict(
+  text=("Proof: flow conservation - if the on-tree arcs plus the virtual exit->entry arc form a forest (a checkable "
+        "certificate, proved sound) and the gcda holds a conserved flow, count_on_tree recovers the flow on every arc and "
+        "every block counter is the inflow; instrumented lines come from the notes only; executed <=> entry arc positive; "
+        "a single-block line gets its block's count (9 theorems, all full strength). CHECKED, not provable (an external "
+        "program): equality with llvm-cov-14 gcov on generated C programs (clang-14 --coverage, 0-4 run profiles, merged "
+        "and per-run gcda) and generated LLVM-like notes, and the multi-block line/cycle rule. Known findings "
+        "C08-single-block-line-outflow and C08-entry-arc-zero-function-zeroed (LLVM 14 records flow-inconsistent counters "
+        "for a dropped critical-edge arc)."),
+  note=COMMON_NOTE + "clang-14 and llvm-cov-14 are reference oracles, never modelled; the harness's gcov text reader "
+       "and gcno encoder/decoder are trusted.",
+  technique="Lean 4 proof of flow recovery over a spanning-forest presentation with a sound executable certificate + toolchain cross-check against llvm-cov gcov",
+  design="6.C08"),
 }
 
 PENDING_REASON = "not claimed in this revision: model and check still being built (see DESIGN.md section 10)"
